@@ -13,6 +13,13 @@ def main():
     P = importlib.import_module("harness.props." + prop.lower())
     print("replay of %s: kind=%s %s" % (prop, r.get("kind"), r.get("message", "")[:400]))
     c = r.get("case")
+    if r.get("kind") == "translation-broken":
+        from .lib import transcheck
+        t = transcheck.check_translation(B.REPO)
+        print("translation of %s/asynq/async_task.py now: ok=%s stage=%s %s" % (B.REPO, t["ok"], t["stage"], t["message"]))
+        if not t["ok"]:
+            print(t["log"])
+        return 0 if t["ok"] else 1
     if not c:
         print("no concrete case recorded (the replay names the theorem / correspondence that no longer checks)")
         return 1
